@@ -95,8 +95,8 @@ CHECKS = {
    technique=TECH+"attacker workload against an access reference model with per-call commit attribution from the tap",
    ref="DESIGN.md §7 C08"),
  "C20": dict(level="exploration",
-   text="Seeded search over sequences of up to 14 operations Initialize / AddKeySlot / DeleteKeySlot / GetMasterKey / MarshalBinary snapshots / UnmarshalBinary of any earlier snapshot into the same or a fresh storage, over 4 slot ids and 5 x25519 key pairs with right, wrong and dead credentials, compared operation by operation with a live-slot model and audited after every operation (every live slot with its key recovers the original master key; dead slots and wrong keys recover nothing; last slot undeletable; existing slot not overwritten; second initialisation refused). Fault kind: up to 4 single-field corruptions of the serialized form per run (encrypted blob flipped / truncated / extended / swapped / re-encrypted to another key / emptied; slot added as copy / attacker-encrypted / random / empty, or removed; integrity tag flipped / truncated / extended / emptied), each followed by 1-3 retrievals (get / add-slot / delete-slot through live slots with their right keys) that must all fail, after which no live slot may answer and a planted slot must not answer its planter.",
-   note="Degenerate simulation: one task, no clock, no schedule dimension (one mutex around pure code); the fault dimension is stored-form corruption between marshal and unmarshal. Real x25519/AES-GCM via gopenpgp; the master key and all choices derive from the seed, ciphertext randomness (crypto/rand) does not influence outcomes. Corruption of slot ids (rename), algorithm and storage-version fields are outside the statement and not judged. Two genuine defects found here were repaired in /repo. Sampling only.",
+   text="Seeded search over sequences of up to 14 operations Initialize / AddKeySlot / DeleteKeySlot / GetMasterKey / MarshalBinary snapshots / UnmarshalBinary of any earlier snapshot into the same or a fresh storage, over 4 slot ids and 5 x25519 key pairs with right, wrong and dead credentials, compared operation by operation with a live-slot model and audited after every operation (every live slot with its key recovers the original master key; dead slots and wrong keys recover nothing; last slot undeletable; existing slot not overwritten; second initialisation refused). Fault kind: up to 4 single-field corruptions of the serialized form per run (encrypted blob flipped / truncated / extended / swapped / re-encrypted to another key / emptied; slot added as copy / attacker-encrypted / random / empty, or removed; integrity tag flipped / truncated / extended / emptied), each followed by 1-3 retrievals (get / add-slot / delete-slot through live slots with their right keys) that must all fail, after which no live slot may answer and a planted slot must not answer its planter. One generated operation lets two tasks add the same new slot id at the same time: exactly one may report success and the slot must belong to the winner.",
+   note="Nearly degenerate simulation: no clock, and a schedule dimension only in the concurrent-add operation (one mutex around otherwise pure code); the fault dimension is stored-form corruption between marshal and unmarshal. Real x25519/AES-GCM via gopenpgp; the master key and all choices derive from the seed, ciphertext randomness (crypto/rand) does not influence outcomes. Corruption of slot ids (rename), algorithm and storage-version fields are outside the statement and not judged. Two genuine defects found here were repaired in /repo. Sampling only.",
    technique="model-based operation/fault sequencing under the simulator harness (seeded generation, minimisation, replay): live-slot reference model + stored-form corruption injection",
    ref="DESIGN.md §7 C20"),
  "C19": dict(level="exploration",
